@@ -314,6 +314,12 @@ func NewFuture[T any]() *Future[T] {
 //
 // Panics if f has already been filled.
 func (f *Future[T]) Fill(x T) {
+	select {
+	case <-f.c:
+		// Refuse before touching the value that the waiters have been (and will be) given.
+		panic("xsync: Fill of an already filled Future")
+	default:
+	}
 	f.x = x
 	close(f.c)
 }
